@@ -80,6 +80,7 @@ static inline void l0_range_ok(const E *p, uint64_t n, const char *what) {
 }
 /* pointer idioms of the real code that CBMC's pointer checks would flag although C++ defines them (or every implementation does) */
 #define L0_PADD(p, op, n) ((n) == 0 ? (p) : ((p) op (n)))
+#define L0_PDIFF(a, b) ((a) == (b) ? (int64_t)0 : (int64_t)((a) - (b)))
 #define L0_PTR_CMP(a, op, b) (OBJ(a) == OBJ(b) ? (OFF(a) op OFF(b)) : (OBJ(a) op OBJ(b)))
 #define L0_COUNT(n) ((n) > 0 ? (uint64_t)(n) : (uint64_t)0)
 
